@@ -48,6 +48,16 @@ Proof. intros H i Ho Hl Hb. cbn. subst o. auto. Qed.
 Lemma osafe_iret_eq {A} (a : A) L o : osafe (iret a) L o (fun v o' => v = a /\ o' = o).
 Proof. apply osafe_iret. auto. Qed.
 
+(* monad laws, pointwise: lets a proof walk through a parser whose first component is itself a sequence *)
+Lemma osafe_assoc {A B C} (m : IM A) (f : A -> IM B) (g : B -> IM C) L o Q :
+  osafe (ibind m (fun a => ibind (f a) g)) L o Q -> osafe (ibind (ibind m f) g) L o Q.
+Proof.
+  intros H i Ho Hl Hb. specialize (H i Ho Hl Hb). unfold ibind in *. destruct (m i) as [[a i']|c|]; auto.
+Qed.
+
+Lemma osafe_ret_bind {A B} (a : A) (f : A -> IM B) L o Q : osafe (f a) L o Q -> osafe (ibind (iret a) f) L o Q.
+Proof. intros H i Ho Hl Hb. specialize (H i Ho Hl Hb). unfold ibind, iret. exact H. Qed.
+
 Lemma osafe_ierr {A} c L o (Q : A -> Z -> Prop) : ok_code c -> osafe (ierr c) L o Q.
 Proof. intros H i Ho Hl Hb. cbn. auto. Qed.
 
@@ -168,6 +178,8 @@ Ltac osafe_go tac :=
   cbv zeta;
   lazymatch goal with
   | |- osafe (ibind (if ?c then _ else _) _) _ _ _ => let E := fresh "E" in destruct c eqn:E; osafe_go tac
+  | |- osafe (ibind (ibind _ _) _) _ _ _ => apply osafe_assoc; osafe_go tac
+  | |- osafe (ibind (iret _) _) _ _ _ => apply osafe_ret_bind; cbv beta; osafe_go tac
   | |- osafe (ibind _ _) _ _ _ =>
       eapply osafe_bind; [ osafe_prim tac | let a := fresh "a" in let o' := fresh "o" in let H := fresh "H" in
                                          intros a o' H; cbv beta in H; osafe_destr; osafe_go tac ]
@@ -184,6 +196,8 @@ Ltac osafe_go1 tac :=
   cbv zeta;
   lazymatch goal with
   | |- osafe (ibind (if ?c then _ else _) _) _ _ _ => let E := fresh "E" in destruct c eqn:E
+  | |- osafe (ibind (ibind _ _) _) _ _ _ => apply osafe_assoc
+  | |- osafe (ibind (iret _) _) _ _ _ => apply osafe_ret_bind; cbv beta
   | |- osafe (ibind _ _) _ _ _ =>
       eapply osafe_bind; [ osafe_prim tac | let a := fresh "a" in let o' := fresh "o" in let H := fresh "H" in
                                          intros a o' H; cbv beta in H; osafe_destr ]
